@@ -192,7 +192,7 @@ def units(tier):
     return u
 
 
-BUDGET = {"quick": 240, "thorough": 2400}
+BUDGET = {"quick": 240, "thorough": 1200}
 UNIT_PATH_CAP = {"quick": 12000, "thorough": 300000}
 BOUNDS = {
     "quick": "ordered pairs of package paths of depth 0..2 with components [a-z][a-z0-9_]* of length 1..2 (every character symbolic, so ancestor / descendant / sibling / cousin / "
